@@ -120,7 +120,7 @@ def run_kani_units(units, prop, tier, scratch, jobs, only=None):
         results = list(ex.map(one, work))
     # a CBMC that died for lack of memory (or was killed) under full parallel load gets one more run with little
     # company, so that machine load alone does not make a check come out UNDECIDED
-    again = [i for i, (u, h, r) in enumerate(results) if r['status'] in ('oom', 'tool-error')]
+    again = [i for i, (u, h, r) in enumerate(results) if r['status'] in ('oom', 'tool-error') and not h.attempt]
     if again:
         log('[kani] %d harness(es) ended for lack of resources; running them again, two at a time' % len(again))
         with cf.ThreadPoolExecutor(max_workers=2) as ex:
